@@ -102,6 +102,7 @@ func (tg *TCPGroup) Listen(proxyName string, group string, groupKey string, addr
 		}
 		tcpLn, errRet := net.Listen("tcp", net.JoinHostPort(addr, strconv.Itoa(realPort)))
 		if errRet != nil {
+			tg.ctl.portManager.Release(realPort)
 			err = errRet
 			return
 		}
